@@ -29,6 +29,10 @@ CLAIMED = {
             'bounded, solver-complete inside the bound: memory safety, arg-max and label range of the prediction for labels from 0 and from 1 (nclass<=3, features<=2); priors/means/nclass for every label vector with >=2 objects per class up to n=5; AUC=1 for perfect predictions n<=4',
             'kernels havoced (over-approximation) in the index obligations; eigen-decomposition and pseudo-inverse replaced by contract stubs; exact reals for the value obligations; statistical clause (well-separated classes) and affine invariance not decided',
             'DESIGN.md 5/C08'),
+    'C05': ('CBMC bit-precise bounded model checking (SAT) of the real cross-validation drivers, workers, group generator and train/test split, with the learners replaced by tagging stubs and the random generator by an arbitrary value',
+            'bounded, solver-complete inside the bound: for every data set of n<=5 objects, every user group vector / every random draw sequence, thread counts <=3 and iterations <=2: no model predicts an object it was trained on, train and test parts partition the data, every object is predicted exactly once per iteration and receives its own prediction, residuals use the matching response column',
+            'learner internals are other properties; rejection-sampling termination outside the claim; workers synchronous (schedules are C06); reduced generator model (unused id per draw) at the larger sizes',
+            'DESIGN.md 5/C05'),
 }
 NA = {
     'C16': 'behaviour lives inside SQLite and libc decimal formatting (FFI + file I/O); nothing of it is source in /repo that could be executed symbolically - an encoding would verify a hand-written SQL fake, not the code',
